@@ -247,6 +247,16 @@ static void run_call(const struct ulist *ul, int c) {
   tail_fields(u, tail, sizeof tail);
   snprintf(line + n, sizeof line - n, "%s", tail);
   emit(line);
+  const char *dump = getenv("DRV_DUMP"); /* debugging aid: <prefix>.<unit>.<call> gets the memory image */
+  if (dump && u->memory && *u->memory) {
+    char path[512];
+    snprintf(path, sizeof path, "%s.%d.%d", dump, ul->unit, c);
+    FILE *f = fopen(path, "wb");
+    if (f) {
+      fwrite(*u->memory, 1, usable_pages(u) * PAGE, f);
+      fclose(f);
+    }
+  }
 }
 
 static void run_group(const struct ulist *ul, int first, int last) {
